@@ -367,7 +367,7 @@ class Unit:
         return a, b
 
     def fragment(self, relpath, cname, start_re, end_re, params, ret='void', cls=None, locals_=None,
-                 include_end=False, rules=(), epilogue='', prologue='', is_static=True, using_ns=(), tsubst=None, within=None, within_kw=None):
+                 include_end=False, rules=(), epilogue='', prologue='', is_static=True, using_ns=(), tsubst=None, within=None, within_kw=None, start_nth=None, end_first=False):
         """Pull the statements between two anchors as the body of a generated function.
         params: list of (C++ type, name, is_ref)."""
         s = self.src(relpath)
@@ -375,6 +375,11 @@ class Unit:
             # anchors are searched inside the body of the named function only (each must match exactly once there)
             outer = find_function(s, within, **(within_kw or {}))
             ms = list(re.finditer(start_re, outer.body))
+            if start_nth is not None:
+                # the anchor is expected to occur exactly start_nth[1] times; the start_nth[0]-th occurrence is taken
+                if len(ms) != start_nth[1]:
+                    raise ExtractError('fragment start anchor %r matches %d times inside %s, expected %d' % (start_re, len(ms), within, start_nth[1]))
+                ms = [ms[start_nth[0]]]
             if len(ms) != 1:
                 raise ExtractError('fragment start anchor %r matches %d times inside %s' % (start_re, len(ms), within))
             rest = outer.body[ms[0].start():]
@@ -382,6 +387,8 @@ class Unit:
                 frag = rest
             else:
                 me = list(re.finditer(end_re, rest))
+                if end_first and me:
+                    me = me[:1]
                 if len(me) != 1:
                     raise ExtractError('fragment end anchor %r matches %d times inside %s after the start' % (end_re, len(me), within))
                 frag = rest[:me[0].end() if include_end else me[0].start()]
